@@ -21,22 +21,72 @@ pub struct Case {
 fn compare(c: &Case, sched: &Schedule, api_sel: u64, pass: &mut Pass) -> Result<(), Violation> {
     let slices = api_sel;
     let filter = filter_for(c.filter);
-    let (blocking, _) = drive_blocking(&c.stream, c.storage, &Schedule::always_ready(), c.reader_kind, filter.as_ref(), slices);
-    let (got, trace) = drive_async(&c.stream, c.storage, sched, c.reader_kind, filter.as_ref(), slices);
-    let api = if slices == API_SLICE { "next_message_slice" } else if slices == API_MESSAGE { "read_message" } else { "alternating" };
-    let ctx = || format!("storage={} reader_kind={} filter={} schedule={:?} stream={}", c.storage, c.reader_kind, c.filter, sched, hex_short(&c.stream));
+    let (blocking, _) = drive_blocking(
+        &c.stream,
+        c.storage,
+        &Schedule::always_ready(),
+        c.reader_kind,
+        filter.as_ref(),
+        slices,
+    );
+    let (got, trace) = drive_async(
+        &c.stream,
+        c.storage,
+        sched,
+        c.reader_kind,
+        filter.as_ref(),
+        slices,
+    );
+    let api = if slices == API_SLICE {
+        "next_message_slice"
+    } else if slices == API_MESSAGE {
+        "read_message"
+    } else {
+        "alternating"
+    };
+    let ctx = || {
+        format!(
+            "storage={} reader_kind={} filter={} schedule={:?} stream={}",
+            c.storage,
+            c.reader_kind,
+            c.filter,
+            sched,
+            hex_short(&c.stream)
+        )
+    };
     let reference = reference(&c.stream, c.storage, filter.as_ref(), slices);
     for o in &got {
         match o {
             Outcome::Panic(p) => {
-                let hostile = if reference.hostile_at.is_some() { "declared-length<4" } else { "other" };
-                return Err(viol!(format!("async:{}:panic:{}", api, hostile), "async {} panicked: {}; {}", api, p, ctx()));
+                let hostile = if reference.hostile_at.is_some() {
+                    "declared-length<4"
+                } else {
+                    "other"
+                };
+                return Err(viol!(
+                    format!("async:{}:panic:{}", api, hostile),
+                    "async {} panicked: {}; {}",
+                    api,
+                    p,
+                    ctx()
+                ));
             }
-            Outcome::Runaway(w) => return Err(viol!(format!("async:{}:runaway", api), "async {} did not finish: {}; {}", api, w, ctx())),
+            Outcome::Runaway(w) => {
+                return Err(viol!(
+                    format!("async:{}:runaway", api),
+                    "async {} did not finish: {}; {}",
+                    api,
+                    w,
+                    ctx()
+                ))
+            }
             _ => {}
         }
     }
-    if blocking.iter().any(|o| matches!(o, Outcome::Panic(_) | Outcome::Runaway(_))) {
+    if blocking
+        .iter()
+        .any(|o| matches!(o, Outcome::Panic(_) | Outcome::Runaway(_)))
+    {
         // the blocking reader itself misbehaves on this stream: that is C07's finding, nothing to compare against
         pass.classes.push("blocking-reader-misbehaves(C07)");
         return Ok(());
@@ -45,24 +95,57 @@ fn compare(c: &Case, sched: &Schedule, api_sel: u64, pass: &mut Pass) -> Result<
         return Err(viol!(
             format!("async:{}:sequence-length", api),
             "async {} produced {} outcomes, the blocking reader {}: async [{}] blocking [{}]; {}",
-            api, got.len(), blocking.len(),
+            api,
+            got.len(),
+            blocking.len(),
             got.iter().map(|o| o.short()).collect::<Vec<_>>().join(", "),
-            blocking.iter().map(|o| o.short()).collect::<Vec<_>>().join(", "),
+            blocking
+                .iter()
+                .map(|o| o.short())
+                .collect::<Vec<_>>()
+                .join(", "),
             ctx()
         ));
     }
     for i in 0..got.len() {
         if !got[i].same(&blocking[i]) {
-            return Err(viol!(format!("async:{}:outcome-differs", api), "async {} outcome #{} is {} but the blocking reader gives {}; {}", api, i, got[i].short(), blocking[i].short(), ctx()));
+            return Err(viol!(
+                format!("async:{}:outcome-differs", api),
+                "async {} outcome #{} is {} but the blocking reader gives {}; {}",
+                api,
+                i,
+                got[i].short(),
+                blocking[i].short(),
+                ctx()
+            ));
         }
     }
     let s = if c.storage { 16 } else { 0 };
-    let splits_header = trace.boundaries.iter().any(|b| reference.starts.iter().any(|st| *b > *st && *b < *st + s + 4));
-    let msgs = got.iter().filter(|o| matches!(o, Outcome::Item(_) | Outcome::Slice(_) | Outcome::Filtered(_))).count();
+    let splits_header = trace.boundaries.iter().any(|b| {
+        reference
+            .starts
+            .iter()
+            .any(|st| *b > *st && *b < *st + s + 4)
+    });
+    let msgs = got
+        .iter()
+        .filter(|o| {
+            matches!(
+                o,
+                Outcome::Item(_) | Outcome::Slice(_) | Outcome::Filtered(_)
+            )
+        })
+        .count();
     if msgs >= 1 && (splits_header || trace.stalls > 0) {
         pass.nontrivial = true;
     }
-    pass.classes.push(if slices == API_SLICE { "api:next_message_slice" } else if slices == API_MESSAGE { "api:read_message" } else { "api:alternating-entry-points" });
+    pass.classes.push(if slices == API_SLICE {
+        "api:next_message_slice"
+    } else if slices == API_MESSAGE {
+        "api:read_message"
+    } else {
+        "api:alternating-entry-points"
+    });
     if splits_header {
         pass.classes.push("ready-boundary-inside-a-header");
     }
@@ -90,7 +173,9 @@ pub fn check(c: &Case) -> CheckResult {
     compare(c, &c.schedule, API_MESSAGE, &mut pass)?;
     compare(c, &c.schedule, API_SLICE, &mut pass)?;
     // both entry points alternately on the same reader (pattern derived from the case)
-    let mix = crate::util::splitmix64(c.stream.len() as u64 ^ ((c.filter as u64) << 32) ^ c.schedule.steps.len() as u64) | 2;
+    let mix = crate::util::splitmix64(
+        c.stream.len() as u64 ^ ((c.filter as u64) << 32) ^ c.schedule.steps.len() as u64,
+    ) | 2;
     compare(c, &c.schedule, mix & !1, &mut pass)?;
     if c.systematic && c.stream.len() <= 400 {
         for chunk in 1..=64u16 {
@@ -103,7 +188,16 @@ pub fn check(c: &Case) -> CheckResult {
         for _ in 0..c.stream.len() + 2 {
             steps.extend([Step::Stall, Step::Stall, Step::Data(3)]);
         }
-        compare(c, &Schedule { steps, then_chunk: 0, then_stall: false }, API_MESSAGE, &mut pass)?;
+        compare(
+            c,
+            &Schedule {
+                steps,
+                then_chunk: 0,
+                then_stall: false,
+            },
+            API_MESSAGE,
+            &mut pass,
+        )?;
         pass.classes.push("systematic-schedules");
     }
     pass.classes.sort();
@@ -112,9 +206,23 @@ pub fn check(c: &Case) -> CheckResult {
 }
 
 pub fn strategy() -> impl Strategy<Value = Case> {
-    (any::<bool>(), schedule(), 0u8..6, prop_oneof![3 => Just(0u8), 1 => 1u8..8], prop::bool::weighted(0.1)).prop_flat_map(|(storage, schedule, reader_kind, filter, systematic)| {
-        stream(storage).prop_map(move |stream| Case { stream, storage, schedule: schedule.clone(), reader_kind, filter, systematic })
-    })
+    (
+        any::<bool>(),
+        schedule(),
+        0u8..6,
+        prop_oneof![3 => Just(0u8), 1 => 1u8..8],
+        prop::bool::weighted(0.1),
+    )
+        .prop_flat_map(|(storage, schedule, reader_kind, filter, systematic)| {
+            stream(storage).prop_map(move |stream| Case {
+                stream,
+                storage,
+                schedule: schedule.clone(),
+                reader_kind,
+                filter,
+                systematic,
+            })
+        })
 }
 
 pub fn run(run: &Run) {
@@ -128,7 +236,13 @@ pub fn run(run: &Run) {
     );
     run.assume("the blocking reader on an always-ready source is the reference (its own conformance is C07); streams on which it panics are attributed to C07, not compared");
     run.regressions(&replay);
-    run.random("poll-schedules", run.cases(60_000, 1_000_000), 0.2, strategy, check);
+    run.random(
+        "poll-schedules",
+        run.cases(60_000, 1_000_000),
+        0.2,
+        strategy,
+        check,
+    );
 }
 
 pub fn replay(_section: &str, case: &Json) -> Option<CheckResult> {
